@@ -131,9 +131,6 @@ namespace pika::transform_mpi_detail {
                 PIKA_DETAIL_DP(mpi::detail::mpi_tran<7>,
                     debug(str<>("dispatch_mpi_recv"), "invoke mpi", ptr(r.op_state.request)));
 
-                PIKA_ASSERT_MSG(r.op_state.request != MPI_REQUEST_NULL,
-                    "MPI_REQUEST_NULL returned from mpi invocation");
-
                 if (r.op_state.status != MPI_SUCCESS)
                 {
                     PIKA_DETAIL_DP(mpi::detail::mpi_tran<5>,
@@ -144,6 +141,9 @@ namespace pika::transform_mpi_detail {
                             pika::mpi::exception(r.op_state.status, "dispatch mpi")));
                     return;
                 }
+
+                PIKA_ASSERT_MSG(r.op_state.request != MPI_REQUEST_NULL,
+                    "MPI_REQUEST_NULL returned from mpi invocation");
             }
 
             void trigger(receiver& r)
@@ -262,7 +262,8 @@ namespace pika::transform_mpi_detail {
                             debug(str<>("transform_mpi_recv"), "set_value_t"));
 
                         dispatch<Ts...>(r);
-                        trigger(r);
+                        // dispatch has already signalled the error if the mpi call failed
+                        if (r.op_state.status == MPI_SUCCESS) { trigger(r); }
                     },
                     [&](std::exception_ptr ep) {
                         ex::set_error(std::move(r.op_state.r), std::move(ep));
